@@ -81,9 +81,26 @@ example : bannered ⟨false, [1], []⟩ { Method := [71,69,84], Header := [(bann
 /-! ### shim script -/
 
 /-- non-HTML content types: body and Content-Length untouched, for any read segmentation -/
-theorem splice_non_html (code ct first rest : Bytes) (h : Go.contains (Go.toLower ct) htmlWord = false) :
+theorem splice_non_html (code ct first rest : Bytes) (h : isHTMLType ct = false) :
     shimBody code ct first rest = (first ++ rest, false) := by
   simp [shimBody, h]
+
+/-- only the media type decides: parameters after the first ';' (a file name, a schema URL, a charset that
+    happen to contain "html") never turn a response into an HTML document -/
+theorem html_type_ignores_parameters (mt params : Bytes) (h : ∀ b ∈ mt, b ≠ 59) :
+    isHTMLType (mt ++ 59 :: params) = isHTMLType mt := by
+  have hm : ∀ (l : Bytes), (∀ b ∈ l, b ≠ 59) → mediaType (l ++ 59 :: params) = l ∧ mediaType l = l := by
+    intro l
+    induction l with
+    | nil => intro _; simp [mediaType]
+    | cons x xs ih =>
+      intro hl
+      have hx : x ≠ 59 := hl x (by simp)
+      have := ih (fun b hb => hl b (by simp [hb]))
+      simp [mediaType, List.takeWhile_cons, hx] at this ⊢
+      exact this
+  unfold isHTMLType
+  rw [(hm mt h).1, (hm mt h).2]
 
 /-- the first `<head>` inside the first read is the first `<head>` of the whole body -/
 theorem index_append_left (a b pat : Bytes) (i : Nat) (h : Go.index a pat = some i) :
@@ -93,7 +110,7 @@ theorem index_append_left (a b pat : Bytes) (i : Nat) (h : Go.index a pat = some
 /-- HTML: the result is the original body with the script inserted exactly once,
     immediately after the first `<head>` of the whole body — or the unchanged body when the
     first read holds no `<head>`.  Nothing else is added, removed or reordered. -/
-theorem splice_correct (code ct first rest : Bytes) (h : Go.contains (Go.toLower ct) htmlWord = true) :
+theorem splice_correct (code ct first rest : Bytes) (h : isHTMLType ct = true) :
     (Go.index first headTag = none ∧ (shimBody code ct first rest).1 = first ++ rest) ∨
     (∃ i, Go.index (first ++ rest) headTag = some i ∧
       (shimBody code ct first rest).1 = (first ++ rest).take (i + 6) ++ code ++ (first ++ rest).drop (i + 6)) := by
@@ -110,6 +127,9 @@ theorem index_spec (s pat : Bytes) (i : Nat) (h : Go.index s pat = some i) :
 theorem shim_hook_shares_no_buffer : websockets_shimBodySharedBuffers = [] := by decide
 
 -- non-vacuity
+-- `application/json;x=html` is not an HTML type, `application/xhtml+xml;x=1` is
+example : isHTMLType [97,112,112,108,105,99,97,116,105,111,110,47,106,115,111,110,59,120,61,104,116,109,108] = false := by decide
+example : isHTMLType [97,112,112,108,105,99,97,116,105,111,110,47,120,104,116,109,108,43,120,109,108,59,120,61,49] = true := by decide
 example : (shimBody [1] [116,101,120,116,47,72,84,77,76] [60,104,101,97,100,62,60,104,101,97,100,62] [9]).1 = [60,104,101,97,100,62,1,60,104,101,97,100,62,9] := by decide
 example : banner_isFrameableHTMLResponse 200 [(banner_contentTypeHeader, [[116,101,120,116,47,104,116,109,108]])] = true := by decide
 
